@@ -193,7 +193,7 @@ Definition h_call (kd : ckind) (to0 v0 rsz : Z) (c : fctx) (hs : hstate) (ob : l
     (* handle_insufficient_fund_case: fail_ex = create_branch(ex, insufficiency_cond), pushed
        first; the main path is pushed later, hence explored first *)
     let trF := (true, negb (fund =? 0) && insufficient (balance_of st pranked_caller) fund) :: tr in
-    let trM := (false, send_cond op st pranked_caller fund) :: tr in
+    let trM := (false, main_cond op st pranked_caller to fund (c_depth c)) :: tr in
     h_fork H hs (explore trF)
       (fun H1 =>
          if in_code st to then
@@ -205,13 +205,17 @@ Definition h_call (kd : ckind) (to0 v0 rsz : Z) (c : fctx) (hs : hstate) (ob : l
              h_sub_frame msg hs1 trM lg H1a run_callee
                (h_call_back continue ob rsz snap orig_balance)
            else ([], H1a)
-         else
+         else if unknown_call_ok (c_depth c) then
            (* call_unknown, non-existing account *)
            if explore trM then
              let hs1 := h_values hs (send_force op st pranked_caller to fund) in
              let l := Some (false, false, []) in
              continue hs1 (m_after_call ob 1 l rsz []) l trM (lg ++ [LFrame msg; LEnd (FOk [])]) H1
-           else ([], H1))
+           else ([], H1)
+         else
+           (* ... at the depth limit: status word 0, nothing sent *)
+           let l := Some (false, false, []) in
+           continue hs (m_after_call ob 0 l rsz []) l trM lg H1)
       (fun hsF H2 =>
          let l := Some (false, true, []) in
          continue hsF (m_after_call ob 0 l rsz []) l trF lg H2).
